@@ -1563,10 +1563,9 @@ class VM:
         if hasattr(func, "_original_func"):
             func = func._original_func
 
-        # Use existing invoke mechanism
-        self._invoke_js_function(func, args, this_val)
-        result = self._execute()
-        return result
+        # Run the callee to completion and hand back its result; running the
+        # main loop here would execute the rest of the program inside this call
+        return self._call_callback(func, args, this_val)
 
     def _make_regexp_method(self, re: JSRegExp, method: str) -> Any:
         """Create a bound RegExp method."""
